@@ -108,6 +108,8 @@ static void randomCase(Rng &rng, CaseResult &r, bool zeros) {
   int S = (int)rng.range(1, rng.chance(0.2) ? 40 : 6), K = (int)rng.range(1, rng.chance(0.2) ? 12 : 5);
   ll pmax = rng.chance(0.3) ? 5 : (rng.chance(0.5) ? 100 : 100000000);
   ll qmax = rng.chance(0.4) ? 3 : (rng.chance(0.5) ? 30 : 1000000);
+  bool huge = rng.chance(0.1);
+  if (huge) { qmax = 4000000000LL; pmax = std::min<ll>(pmax, 1000); }  // totals beyond 32 bits; positions small so that the 64-bit reference cost cannot overflow
   std::vector<ll> u(S), v(K), s(S), d(K);
   for (auto &x : u) x = rng.range(0, pmax);
   for (auto &x : v) x = rng.range(0, pmax);
@@ -131,7 +133,7 @@ static void randomCase(Rng &rng, CaseResult &r, bool zeros) {
   for (auto x : s) if (x == 0) hasZero = true;
   for (auto x : d) if (x == 0) hasZero = true;
   r.nontrivial = S >= 2 && K >= 2;
-  r.sig = "S" + std::to_string(std::min(S, 12)) + "K" + std::to_string(K) + "p" + std::to_string(pmax <= 5 ? 0 : pmax <= 100 ? 1 : 2) + "q" + std::to_string(qmax <= 3 ? 0 : qmax <= 30 ? 1 : 2) + (hasZero ? "z" : "-") + (usedBalance ? "b" : "-");
+  r.sig = "S" + std::to_string(std::min(S, 12)) + "K" + std::to_string(K) + "p" + std::to_string(pmax <= 5 ? 0 : pmax <= 100 ? 1 : 2) + "q" + std::to_string(qmax <= 3 ? 0 : qmax <= 30 ? 1 : 2) + (hasZero ? "z" : "-") + (usedBalance ? "b" : "-") + (huge ? "H" : "");
 }
 
 // exhaustive: <= 3 sources x <= 3 sinks, positions 0..2, supplies / demands 0..2. case = (S, K, positions) ; inner loop over all supply/demand vectors
